@@ -336,6 +336,7 @@ func (in *Interp) chanSend(f *Frame, cv Value, v Value) {
 	if !in.concretizeGuard() {
 		return
 	}
+	in.implicitPoint("chan.send")
 	c := in.asChan(cv)
 	if c == nil {
 		in.block(func() bool { return false }, "send on nil channel")
@@ -393,6 +394,7 @@ func (in *Interp) chanRecv(f *Frame, cv Value, commaOk bool, et types.Type) Valu
 		}
 		return in.zero(et)
 	}
+	in.implicitPoint("chan.recv")
 	c := in.asChan(cv)
 	if c == nil {
 		in.block(func() bool { return false }, "receive from nil channel")
@@ -418,6 +420,7 @@ func (in *Interp) chanClose(cv Value) {
 	if !in.concretizeGuard() {
 		return
 	}
+	in.implicitPoint("chan.close")
 	c := in.asChan(cv)
 	if c == nil {
 		in.rtCheck(in.ts.True, "close of nil channel")
